@@ -346,48 +346,74 @@ def normalize_assigns_together(ctx, rule):
 
 
 def notalpha_fallback(ctx, rule):
-    """R14.d: set_char_classes assigns lang class, else NotAlpha when !is_alphabetic, else Any"""
+    """R14.d: the class written for a character is the language's class if it has one, else NotAlpha when
+    `CharClass::NotAlpha.matches(ch)` says so, else Any — decided as a decision table by abstract interpretation (A13), so
+    that `or_else`/`unwrap_or` chains, nested matches and helper functions are one fact"""
+    from .. import absint as AI
     tm = _text_methods(ctx)
     b = tm.get("set_char_classes")
     if not ctx.require(rule, "Text::set_char_classes", b):
         return
-    sy = ctx.sym(b)
-    val = None
-    for bi, si, st in b.iter_stmts():
-        if st["k"] == "assign" and st["place"]["p"] and st["place"]["ty"].endswith("CharClass") \
-                and st["place"]["p"][0] == "deref" and not b.blocks[bi]["cleanup"]:
-            val = (bi, st, sy.rvalue(st["rv"]))
-    if not ctx.require(rule, "class-write", val, b.where()):
-        return
-    bi, st, e = val
     key = "fallback-chain"
-    ok = e[0] == "call" and e[1].endswith("Option::unwrap_or") and U.agg_variant(e[2][1]) == "Any"
-    inner = e[2][0] if ok else None
-    ok = ok and inner[0] == "call" and inner[1].endswith("Option::or_else") and \
-        bool(U.expr_calls(inner[2][0], "Lang::get_char_class"))
-    cb = U.closure_body(ctx, inner[2][1]) if ok else None
-    if not ok or cb is None:
-        ctx.fail(rule, key, where(b, bi, st), "character class is no longer `lang class, else NotAlpha-if-not-alphabetic, "
-                 "else Any`: %s" % S.show(e, b)[:160], {"witness": "title 'b-cd', query 'bcd'"})
-        return
-    # closure: CharClass::NotAlpha.matches(ch, lang)? => Some(NotAlpha)
-    csy = ctx.sym(cb)
-    mcalls = U.calls_named(cb, "CharPattern::matches")
-    recv_ok = False
-    for mbi, mt in mcalls:
-        if U.agg_variant(csy.operand(mt["args"][0])) == "NotAlpha":
-            recv_ok = True
-    some_ok = False
-    ccfg = ctx.cfg(cb)
-    for cbi, si, cst in cb.iter_stmts():
-        if cst["k"] == "assign" and cst["place"]["l"] == 0 and not cst["place"]["p"]:
-            ce = csy.rvalue(cst["rv"])
-            if ce[0] == "agg" and ce[2].endswith("Option::Some") and U.agg_variant(ce[3][0]) == "NotAlpha":
-                # on the true branch of the bool switch
-                for p in ccfg.pred[cbi]:
-                    bt = U.bool_switch_targets(cb.blocks[p]["term"])
-                    if bt and bt[1] == cbi:
-                        some_ok = True
+    cc = None
+    for a in ctx.facts.adts.values():
+        if a["id"].endswith("char_class::CharClass"):
+            cc = a["id"]
+    KNOWN = ("sym", "class-from-language")
+
+    def variant(name):
+        return ("enum", cc, name, ())
+
+    def run(G, M):
+        writes = []
+
+        def oracle(t, args, body):
+            cn = t.get("cn") or ""
+            if cn.endswith("Lang::get_char_class"):
+                return [G]
+            if cn.endswith("CharPattern::matches"):
+                if args and args[0] == variant("NotAlpha"):
+                    return [M]
+                return [AI.UNKNOWN]
+            if cn.endswith("Iterator::next"):
+                return [AI.some(("agg", "tuple", (("sym", "ch"), ("sym", "slot")))), AI.NONE]
+            if cn.endswith(("Vec::push",)) and len(args) > 1:
+                writes.append(args[1])
+                return [("agg", "tuple", ())]
+            return None
+        ai = AI.AbsInt(ctx, oracle)
+        orig = ai.write_place
+
+        def write_place(env, pl, v):
+            if pl["p"] and pl["p"][0] == "deref" and pl.get("ty", "").endswith("CharClass"):
+                writes.append(v)
+            return orig(env, pl, v)
+        ai.write_place = write_place
+        # the classification may be a closure handed to map/extend: evaluate closures returning CharClass too
+        try:
+            ai.run_body(b, [("sym", "self"), ("sym", "lang")])
+            for cb in U.nested_closures(ctx, b):
+                if cb.local_ty(0).endswith("CharClass"):
+                    caps = ctx.model.creation.get(cb.id)
+                    ncap = len(caps[3]["rv"]["ops"]) if caps else 0
+                    for r in ai.run_body(cb, [("closure", cb.id, tuple(("sym", "cap%d" % i) for i in range(ncap))), ("sym", "ch")]):
+                        writes.append(r)
+        except AI.Limit:
+            return None
+        return set(writes)
+    table = [
+        ("language class known", AI.some(KNOWN), AI.some(AI.const(True)), {KNOWN}),
+        ("language class known", AI.some(KNOWN), AI.NONE, {KNOWN}),
+        ("no language class, not alphabetic", AI.NONE, AI.some(AI.const(True)), {variant("NotAlpha")}),
+        ("no language class, alphabetic", AI.NONE, AI.some(AI.const(False)), {variant("Any")}),
+        ("no language class, predicate undecided", AI.NONE, AI.NONE, {variant("Any")}),
+    ]
+    bad = []
+    for name, G, M, want in table:
+        got = run(G, M)
+        if got != want:
+            bad.append("%s: class is %s, expected %s" % (name, sorted(AI.show(x) for x in got) if got is not None else "not evaluable",
+                                                          sorted(AI.show(x) for x in want)))
     # the NotAlpha arm of CharClass::matches is !is_alphabetic
     arm_ok = False
     for mb in ctx.facts.fns():
@@ -400,14 +426,14 @@ def notalpha_fallback(ctx, rule):
                         x = ae[3][0]
                         if x[0] == "unop" and x[1] == "Not" and U.expr_calls(x[2], "is_alphabetic"):
                             arm_ok = True
-    if recv_ok and some_ok and arm_ok:
-        ctx.ok(rule, key, where(b, bi, st), "characters without a language class get NotAlpha exactly when they are not "
-               "alphabetic, otherwise Any", nontrivial=True)
+    if not bad and arm_ok:
+        ctx.ok(rule, key, b.where(), "characters without a language class get NotAlpha exactly when they are not "
+               "alphabetic, otherwise Any (decision table over get_char_class x NotAlpha.matches: %d cases)" % len(table), nontrivial=True)
     else:
-        ctx.fail(rule, key, where(b, bi, st),
-                 "NotAlpha fallback broken (matches receiver NotAlpha: %s, Some(NotAlpha) on true branch: %s, "
-                 "NotAlpha arm is !is_alphabetic: %s)" % (recv_ok, some_ok, arm_ok),
-                 {"witness": "title 'b-cd', query 'bcd': the separator is charged the default cost 1.0"})
+        ctx.fail(rule, key, b.where(),
+                 "character class is no longer `lang class, else NotAlpha-if-not-alphabetic, else Any`: %s%s"
+                 % ("; ".join(bad[:3]), "" if arm_ok else "; the NotAlpha predicate is not !is_alphabetic"),
+                 {"witness": "title 'b-cd', query 'bcd'"})
 
 
 def word_shape_rules(ctx, rule):
@@ -426,7 +452,13 @@ def word_shape_rules(ctx, rule):
                 pl = sy.place(st["place"])
                 pth = U.field_path(pl)
                 if pth and pth[0] == "arg" and pth[1] == 1:
-                    asg.setdefault(".".join(pth[2]), []).append((bi, st, sy.rvalue(st["rv"])))
+                    v_ = sy.rvalue(st["rv"])
+                    asg.setdefault(".".join(pth[2]), []).append((bi, st, v_))
+                    vs_ = S.strip_refs(v_)
+                    if vs_[0] == "agg" and vs_[1] == "tuple":
+                        # `self.slice = (a, b)` assigns slice.0 and slice.1
+                        for i_, comp in enumerate(vs_[3]):
+                            asg.setdefault(".".join(pth[2] + [str(i_)]), []).append((bi, st, comp))
         def is_count_of(e, rev):
             e = S.strip_refs(e)
             calls = [c[1].rsplit("::", 1)[-1] for c in S.walk(e) if isinstance(c, tuple) and c and c[0] == "call"]
